@@ -7,7 +7,7 @@ IDS="${1:-C29 C06 C33 C31 C24 C32 C27 C04 C30 C34 C07 C05}"; SEEDS="${2:-2026092
 JA="${3:-16}"; JB="${4:-5}"
 OUT=/tmp/determinism; rm -rf $OUT; mkdir -p $OUT/a $OUT/b
 FAIL=0
-norm() { jq -S 'del(.wall_s, .runs_per_hour, .generated_at, .seeds_per_hour, .timing, .sim_time_covered_wall) | walk(if type=="object" then del(.wall_s, .runs_per_hour, .wall_ms, .commands_per_second) else . end)' "$1"; }
+norm() { jq -S 'del(.wall_s, .runs_per_hour, .generated_at, .seeds_per_hour, .timing, .sim_time_covered_wall) | walk(if type=="object" then del(.wall_s, .runs_per_hour, .wall_ms, .commands_per_second, .timing) else . end)' "$1"; }
 for seed in $SEEDS; do for id in $IDS; do
   case $id in C29) BIN=storesim; A="quick";; C07) BIN=lssim; A="quick";; C06) BIN=fragsim; A="quick";; C33) BIN=swapsim; A="quick";; C31) BIN=depsim; A="quick";; *) BIN=procsim; A="$id quick";; esac
   VERIF_OUT=$OUT/a VERIF_JOBS=$JA VERIF_SEED=$seed /verif/target/debug/$BIN $A > $OUT/a/$id-$seed.log 2>&1; RA=$?
